@@ -62,6 +62,8 @@ def main():
             for c in r["clauses"]:
                 if c["status"] != "discharged":
                     print("     ", c["label"], c["status"], json.dumps(c["model"], default=str)[:400] if c["model"] else c["reason"])
+            if r["status"] == "vacuous":
+                print("      notes:", [n for n in r.get("notes", []) if "never executed" in n], "paths_covered", r.get("paths_covered"))
             if r.get("trace"):
                 print(r["trace"])
         bad += r["status"] != "discharged"
